@@ -76,6 +76,7 @@ struct SesCtx {
     bool ml_needed = false, ml_recovered = false;
     bool in_cb_call = false;
     uint32_t store_count = 0;
+    size_t mem_cursor = 0;
 };
 
 struct Executor {
@@ -242,16 +243,24 @@ struct Executor {
 
     // ------------------------------------------------------------ O-MEM
     void check_app_memory(SesCtx &sc, bool force) {
-        bool small = (uint64_t)sc.n * sc.E <= 8192;
-        if (!force && !small && (sc.calls & 15)) return;
-        for (size_t i = 0; i < sc.delivered.size(); i++) {
+        // small blocks: every buffer after every call; otherwise a rotating window of 48 buffers per call, everything at
+        // finish / release (force)
+        bool all = force || (uint64_t)sc.delivered.size() * sc.E <= 8192;
+        size_t nd = sc.delivered.size();
+        size_t cnt_d = all ? nd : std::min<size_t>(48, nd);
+        for (size_t q = 0; q < cnt_d; q++) {
+            size_t i = all ? q : (sc.mem_cursor++ % nd);
             AppBuf &b = sc.delivered[i];
             if (b.p && checksum(b.p, b.len) != b.sum) {
                 viol({"C07"}, "mem", std::string("received-symbol-modified:codec=") + cn(sc), "esi " + std::to_string(sc.delivered_esi[i]), &sc);
                 b.sum = checksum(b.p, b.len);
             }
         }
-        for (size_t i = 0; i < sc.enc_src.size(); i++) {
+        bool alls = force || (uint64_t)sc.enc_src.size() * sc.E <= 8192;
+        size_t ns = sc.enc_src.size();
+        size_t cnt_s = alls ? ns : std::min<size_t>(48, ns);
+        for (size_t q = 0; q < cnt_s; q++) {
+            size_t i = alls ? q : (sc.mem_cursor++ % ns);
             AppBuf &b = sc.enc_src[i];
             if (b.p && checksum(b.p, b.len) != b.sum) {
                 viol({"C07", "C06"}, "mem", std::string("encoder-source-modified:codec=") + cn(sc), "esi " + std::to_string(i), &sc);
@@ -267,9 +276,10 @@ struct Executor {
         sc.calls++;
         const bool ldpc = sc.s->codec == C_LDPC, twod = sc.s->codec == C_2D, rs = is_rs(sc);
         const char *pdata = twod ? "C16" : "C01";
+        // large blocks: the O(k) table scan is done every 64th call and at the calls that can change many symbols
+        if (sc.k > 2000 && (sc.calls & 63) && !strcmp(kind, "DELIVER")) { observe_light(sc, kind, esi, st, was_submission); return; }
         status(&sc, "query", false);
         int complete = ad_is_complete(sc.h, sc.s->id);
-        std::vector<void *> tab_store(sc.k ? sc.k : 1, nullptr);
         void **tab = (void **)malloc(sizeof(void *) * (sc.k ? sc.k : 1));   // exact-size heap table of k pointers
         for (uint32_t i = 0; i < sc.k; i++) tab[i] = nullptr;
         int tst = ad_get_tab(sc.h, tab, sc.s->id);
@@ -369,6 +379,23 @@ struct Executor {
         trace_step(sc, kind, esi, st, complete, extra);
         free(tab);
         check_app_memory(sc, false);
+    }
+
+    void observe_light(SesCtx &sc, const char *kind, int64_t esi, int st, bool was_submission) {
+        status(&sc, "query", false);
+        int complete = ad_is_complete(sc.h, sc.s->id);
+        status_done(); res.lib_calls++;
+        if (sc.s->codec != C_2D) {
+            if (sc.complete_seen && !complete) viol({"C10"}, "status", std::string("complete-reverted:codec=") + cn(sc), kind, &sc);
+            if (was_submission && st != 0) viol({"C10"}, "status", std::string(kind) + "-status:codec=" + cn(sc), "status " + std::to_string(st), &sc);
+        }
+        if (sc.s->codec == C_LDPC && sc.has_peel && !sc.finish_called && judged(sc) && !sc.avail_done && (sc.peel.all_sources() != (complete != 0)))
+            viol({"C04"}, "peel", "complete-flag", std::string("model ") + (sc.peel.all_sources() ? "1" : "0") + " lib " + std::to_string(complete), &sc);
+        if (is_rs(sc) && judged(sc) && ((sc.distinct >= sc.k) != (complete != 0)) && (!sc.avail_done || sc.finish_called))
+            viol({"C02"}, "mds", std::string("completion-differs-from-k-distinct:codec=") + cn(sc), std::to_string(sc.distinct), &sc);
+        if (complete) sc.complete_seen = true;
+        Hash64 extra; extra.u64(0x11);
+        trace_step(sc, kind, esi, st, complete, extra);
     }
 
     bool is_app_delivered(SesCtx &sc, void *p) {
@@ -708,6 +735,7 @@ struct Executor {
         if (!rs) sc.finalised = true;              // LDPC/2D: finish is final (it consumes the matrix)
         count(std::string("finish_calls:") + cn(sc));
         observe_decoder(sc, "FINISH", -1, st, false);
+        check_app_memory(sc, true);
         bool complete = sc.complete_seen;
         const char *ps = twod ? "C16" : "C10";
         std::string pre = before ? ":pre=complete" : ":pre=incomplete";
@@ -864,6 +892,7 @@ struct Executor {
 
     // ------------------------------------------------------------ main loop
     void run() {
+        uint64_t refused0 = ledger_refused_huge();
         ledger_reset();
         ad_global_reset(opt.solo_session >= 0 && opt.solo_scramble ? opt.solo_scramble : plan.scramble);
         ad_set_rand_stream(plan.scramble);
@@ -892,6 +921,7 @@ struct Executor {
         if (opt.solo_session < 0) check_twins();
         // anything still alive in the ledger that belongs to no session?
         summarize();
+        if (ledger_refused_huge() != refused0) count("huge_allocations_refused", (int64_t)(ledger_refused_huge() - refused0));
         res.log_hash = log.h; res.interleave_hash = inter.h;
     }
 
